@@ -71,6 +71,7 @@ Definition target_addr (akind port : N) : bytes :=
       | 17 => [1; 127; 0]                 (* truncated IPv4 *)
       | 18 => [3; 200; 97; 98]            (* truncated domain *)
       | 19 => [0; 1; 2; 3; 4; 5; 6]       (* type 0 *)
+      | 20 => []                          (* nothing: with an empty payload, an empty plaintext *)
       | _ => [9; 1; 2; 3; 4; 5; 6]
       end
   end.
